@@ -63,6 +63,7 @@ def guard_probe(payload):
 def run(ctx):
     rng = np.random.default_rng(ctx.seed)
     ctx.proof_layer(allowed_axioms=(), coq_deps=[])
+    core.note_drift(ctx, ANCHORS)
     cov = core.LineCoverage()
     with cov:
         # likelihood table kernel
